@@ -356,6 +356,14 @@ def generate(ctx):
         yield "agg_spec", inp
     ops = ["nunique", "idxmin", "idxmax", "std", "cov", "corr", "value_counts", "cumsum", "cumprod", "cumcount",
            "transform", "shift", "ffill", "bfill", "apply", "apply_first", "median"]
+    # cumulative operations need several partitions in which a group comes and goes
+    for _ in range(ctx.n(40, 400)):
+        inp = _rand_frame(rng, "int")
+        n = len(inp["c"])
+        inp["c"] = [rng.randint(0, 3) for _ in range(n)]
+        inp["cuts"] = U.rand_cuts(rng, n, maxparts=6, p_empty=0.3)
+        inp["op"] = rng.choice(["cumsum", "cumprod", "cumcount"])
+        yield "misc", inp
     for _ in range(ctx.n(70, 700)):
         kk = rng.choice(["int", "int", "str", "cat", "nakey"])
         inp = _rand_frame(rng, kk)
